@@ -19,6 +19,7 @@ LEVEL_TEXT = ("The same command runs with one core and with 2-4 (thorough: up to
               "any out-of-order arrival the verdict is inconclusive.")
 LEVEL_TEXT += " Inputs include FASTA (two files and interleaved, header comments containing '>', '@', '+'), multi-MB block-structured files whose chunks contribute between nothing and several hundred KB to each output, and demultiplexing with an adapter named 'unknown'."
 LEVEL_TEXT += ' Inputs without reads and with fewer reads than workers, non-ASCII adapter names, and runs whose processes are confined to one CPU.'
+LEVEL_TEXT += " Every shard runs one interleaved FASTA input with '>' in header comments; output extensions also in upper and mixed case."
 LEVEL_NOTE = ("Trusted base: byte comparison, Python's decompressors; the hooks only delay and record, they do not change what is sent. "
               "A finite set of schedules is observed, not every schedule.")
 VARIANTS = {"quick": ["plain"], "thorough": ["plain"]}
